@@ -67,6 +67,11 @@ static inline int rxv_string_compare(const rxv_string* s, size_t pos, size_t len
 	if (pos == 0 && len >= s->size) return s->id == __CPROVER_uninterpreted_rxv_key_id(p, n) ? 0 : 1;
 	return nondet_int();
 }
+/* observers of the abstract string: the representation invariant is id == key_id(data, size) */
+static inline size_t rxv_string_size(const rxv_string* s) { return s->size; }
+static inline size_t rxv_string_length(const rxv_string* s) { return s->size; }
+static inline const char* rxv_string_data(const rxv_string* s) { return s->data; }
+static inline const char* rxv_string_c_str(const rxv_string* s) { return s->data; }
 #define RXV_SWAP(a, b) do { __typeof__(a) rxv_tmp_ = (a); (a) = (b); (b) = rxv_tmp_; } while (0)
 #define RXV_MAX(a, b) ((a) > (b) ? (a) : (b))
 #define RXV_MIN(a, b) ((a) < (b) ? (a) : (b))
